@@ -515,16 +515,25 @@ func (e *Endpoint) ServeHTTP(w http.ResponseWriter, r *http.Request) {
 	}
 }
 
+// maxBodySize is the maximum size of a request body.
+const maxBodySize = 20000000 // 20MB
+
 func readBody(w http.ResponseWriter, r *http.Request) (inputData []byte, ok bool) {
 	// Check for too long content in order to prevent death.
-	if r.ContentLength > 20000000 { // 20MB
+	if r.ContentLength > maxBodySize {
 		http.Error(w, "too much input data", http.StatusRequestEntityTooLarge)
 		return nil, false
 	}
 
 	// Read and close body.
-	inputData, err := io.ReadAll(r.Body)
+	// A body of unknown length (chunked transfer) is cut off at the same limit.
+	inputData, err := io.ReadAll(http.MaxBytesReader(w, r.Body, maxBodySize))
 	if err != nil {
+		var tooLarge *http.MaxBytesError
+		if errors.As(err, &tooLarge) {
+			http.Error(w, "too much input data", http.StatusRequestEntityTooLarge)
+			return nil, false
+		}
 		http.Error(w, "failed to read body"+err.Error(), http.StatusInternalServerError)
 		return nil, false
 	}
